@@ -1,6 +1,6 @@
 (* C17 - all auxiliary wire formats round-trip and stay aligned on a stream.
    Only theorem statements closed by [exact <lemma>] and Print Assumptions. *)
-From DTN Require Import Base Bbc BbcProofs ConstsOk.
+From DTN Require Import Base Bbc BbcProofs ConstsOkBbc.
 Open Scope N_scope.
 
 (* BBC fragment header: every field survives encode / decode, for every tid, every sequence
